@@ -1,4 +1,4 @@
-use proc_macro2::{Spacing, Span, TokenStream, TokenTree};
+use proc_macro2::{Span, TokenStream, TokenTree};
 use quote::{quote, ToTokens};
 use syn::Ident;
 
@@ -44,8 +44,10 @@ impl ToTokens for MaybeVoid {
     }
 }
 
+/// The spacing is not looked at: `callback=|lex| 1` and `"a",|lex| 1` have their `=` / `,`
+/// directly in front of another punctuation character and mean the same as the spaced forms.
 pub fn is_punct(tt: &TokenTree, expect: char) -> bool {
-    matches!(tt, TokenTree::Punct(punct) if punct.as_char() == expect && punct.spacing() == Spacing::Alone)
+    matches!(tt, TokenTree::Punct(punct) if punct.as_char() == expect)
 }
 
 /// If supplied `tt` is a punct matching a char, returns `None`, else returns `tt`
